@@ -499,6 +499,28 @@ func (vc *VC) execAppend(x *ssa.Call, s, t Val, st *State) Val {
 	}
 	inplace := vc.fresh("append_inplace", "Bool")
 	vc.define(inplace, sx("<=", sx("+", n, m), sx("scap", s.S)))
+	if vc.fc != nil && vc.fc.Modifies != nil {
+		// an append that fits the capacity writes into the existing backing
+		// array beyond the old length: that array must be this function's own
+		// or named in its modifies clause (otherwise two holders of the same
+		// array - e.g. two concurrent renderings - write the same slots)
+		covered := vc.footprintCoversArray("", s)
+		alts := []string{not(inplace), eq(m, "0"), sx(">=", sx("rootOf", sx("sarr", s.S)), "|alloc@0|"), covered}
+		whole := false
+		for _, lf := range vc.leavesOf(et) {
+			vc.regCompFull(lf.comp, vc.compSorts[lf.comp])
+			foot, w := vc.footprint(lf.comp, applyPath(sx("elem", sx("sarr", s.S), sx("+", sx("soff", s.S), n)), lf.path))
+			if w {
+				whole = true
+			} else {
+				alts = append(alts, foot)
+			}
+			break
+		}
+		if !whole {
+			vc.oblige("frame", "append-in-place", []string{"C14"}, or(alts...), nil)
+		}
+	}
 	newArr := vc.fresh("append_arr", "Addr")
 	vc.define(newArr, vc.newRoot(st))
 	newCap := vc.fresh("append_cap", "Int")
